@@ -16,11 +16,11 @@ NONE = -1000
 def flow_value(j):
     """Isolation!X(j): every value has its own data list and its own context."""
     if j % 3 == 1:
-        c = {"a": 1}
+        c = {"a": 1, "n": {"b": 1}}
     elif j % 3 == 2:
-        c = {"a": 2, "n": {"b": 1}}
-    else:
         c = {}
+    else:
+        c = {"a": 2}
     return ([j], c)
 
 
